@@ -125,6 +125,10 @@ Scripts ==
     \cup {<< [op |-> "remove", a |-> "f1", b |-> "", c |-> "", t |-> Int(1), n |-> 0] >>}
     \cup {<< [op |-> "rename", a |-> "f2", b |-> "g2", c |-> "", t |-> Int(1), n |-> 0] >>}
     \cup {<< [op |-> "rename_type", a |-> "T2", b |-> "R2", c |-> "", t |-> Int(1), n |-> 0] >>}
+    \* several nodes renamed by one patch, a new name being another node's original name (a chain and a swap):
+    \* each rule applies to the node that carries the name in the input, references follow their own node
+    \cup {<< [op |-> "rename_type", a |-> "T1", b |-> "T2", c |-> "", t |-> Int(1), n |-> 0],
+             [op |-> "rename_type", a |-> "T2", b |-> x, c |-> "", t |-> Int(1), n |-> 0] >> : x \in {"R2", "T1"}}
     \* renaming a member that sizes arrays: the arrays follow (f1 in the "@f1" forms, the implicit counters)
     \cup {<< [op |-> "rename", a |-> x, b |-> "cnt", c |-> "", t |-> Int(1), n |-> 0] >> : x \in {"f1", "f2_len", "f1_len"}}
     \cup {<< [op |-> "static", a |-> "f2", b |-> "", c |-> "", t |-> Int(1), n |-> 4] >>}
